@@ -16,7 +16,7 @@ PROPS = {
         "thorough_wall": 2400,
         # (a share of sessions mixes scope registrations with insert_at at
         # the same place: registration order across the two kinds of request)
-        "params": {"other_sect_p": 0.06, "isa_weights": [75, 15, 10], "scope_session_p": 0.12, "constraints_p": 0.1, "extern_p": 0.08},
+        "params": {"other_sect_p": 0.06, "isa_weights": [75, 15, 10], "scope_session_p": 0.12, "constraints_p": 0.1, "extern_p": 0.08, "align_fill_p": 0.5},
         "rule": "seeded scenarios (random module + 1-3 sessions of insert/replace/delete requests) executed against the real "
         "library and the listing model; distinct = distinct (module, sessions) digest; non-trivial = at least one "
         "modification was registered",
@@ -81,7 +81,7 @@ PROPS["C05"] = {
     "thorough_runs": 75000,
     "quick_wall": 240,
     "thorough_wall": 2400,
-    "params": {"allow_target_on_data": True, "zero_hist_p": 0.06, "other_sect_p": 0.06, "isa_weights": [75, 15, 10], "annot_p": 0.2, "allow_fall_off": True, "delblock_p": 0.25, "extern_p": 0.1},
+    "params": {"allow_target_on_data": True, "zero_hist_p": 0.06, "other_sect_p": 0.06, "isa_weights": [75, 15, 10], "annot_p": 0.2, "allow_fall_off": True, "delblock_p": 0.25, "extern_p": 0.1, "patch_align_p": 0.1},
     "rule": "seeded scenarios as for C01; after every session the whole-IR validator (blocks in intervals, no overlap of new blocks, "
     "every node in CFG / symbols / expressions / any aux table is in the module, zero-sized blocks only in documented cases, "
     "addresses, protobuf round trip); then, per scenario with N patch callbacks, N more executions from a fresh build with an "
@@ -119,7 +119,7 @@ PROPS["C07"] = {
     "thorough_runs": 225000,
     "quick_wall": 240,
     "thorough_wall": 2400,
-    "params": {"isa_weights": [75, 15, 10], "scope_session_p": 0.85, "main_p": 0.4, "constraints_p": 0.1},
+    "params": {"isa_weights": [75, 15, 10], "scope_session_p": 0.85, "main_p": 0.4, "constraints_p": 0.1, "scope_insfn_p": 0.15},
     "rule": "seeded scenarios whose sessions register 1-4 scope-based insertions (AllBlocksScope / SingleBlockScope / "
     "AllFunctionsScope x ENTRY/EXIT/ANYWHERE x literal / regex / MAIN_NAME / ENTRYPOINT_NAME filters) plus insert_at at specific "
     "places, through a bare RewritingContext or a PassManager with 1-3 passes, with and without function tables; instrumented "
@@ -184,7 +184,7 @@ PROPS["C10"] = {
     "thorough_runs": 150000,
     "quick_wall": 240,
     "thorough_wall": 2400,
-    "params": {"isa_weights": [85, 15, 0], "align_p": 0.7, "exotic_p": 0.3, "empty_session_p": 0.15, "patch_align_p": 0.15},
+    "params": {"isa_weights": [85, 15, 0], "align_p": 0.7, "exotic_p": 0.3, "empty_session_p": 0.15, "patch_align_p": 0.15, "align_fill_p": 0.5},
     "rule": "seeded histories of edit sessions with an empty apply() before the first and after every session (dump with UUIDs and "
     "addresses must be unchanged, leafFunctions excepted, and a second empty apply() must change nothing); after every edit "
     "session the alignment requirements that held before and those of blocks added by patches must hold and padding must be "
